@@ -21,6 +21,7 @@ from .. import tlc
 from ..common import NCPU, execute_cases
 
 GENSEED = {"g1": 1, "g2": 1}       # must equal MCTwins of RngStreamsMC.tla (checked by the trace spec at Reset)
+OBJSEED = {"o1": 1}                # must equal MCObjSeed: the estimator object of a class entry is built with model seed 1
 
 
 def label_to_op(lab):
@@ -37,14 +38,18 @@ def label_to_op(lab):
         return {"op": "CallInt", "e": args[0], "s": int(args[1])}
     if name == "CallGen":
         return {"op": "CallGen", "e": args[0], "g": args[1]}
+    if name in ("FitObj", "CloneFit"):
+        return {"op": name, "e": args[0], "o": args[1]}
     raise ValueError(lab)
 
 
-def random_history(rng, length):
+def random_history(rng, length, with_obj=False):
     ops = []
     for _ in range(length):
         r = rng.random()
-        if r < 0.15:
+        if with_obj and rng.random() < 0.3:
+            ops.append({"op": rng.choice(["FitObj", "FitObj", "CloneFit"]), "e": "rand", "o": "o1"})
+        elif r < 0.15:
             ops.append({"op": "Perturb"})
         elif r < 0.24:
             ops.append({"op": "Reseed", "s": rng.choice([1, 2])})
@@ -74,7 +79,7 @@ def execute(case):
     return {"id": case["id"], "events": lib_seeded.run_trace(case)}
 
 
-def build_cases(chk, walks, thorough, only=None):
+def build_cases(chk, walks, thorough, only=None, obj_walks=None):
     from .. import lib_seeded
     rng = random.Random(chk.seed)
     keys = lib_seeded.entry_keys()
@@ -86,21 +91,26 @@ def build_cases(chk, walks, thorough, only=None):
     index = {k: n for n, k in enumerate(lib_seeded.entry_keys())}
     for ek in keys:
         slow = reg[ek]["slow"]
-        hist = [("w%03d" % k, w) for k, w in enumerate(walks)]
+        isobj = "obj" in reg[ek] and obj_walks is not None
+        hist = [("w%03d" % k, w) for k, w in enumerate(obj_walks if isobj else walks)]
         if slow and not thorough:
             hist = hist[::3]
         for k in range(nrand if not slow else max(2, nrand // 3)):
-            hist.append(("r%03d" % k, random_history(rng, rng.randint(6, 20 if thorough else 14))))
+            hist.append(("r%03d" % k, random_history(rng, rng.randint(6, 20 if thorough else 14), with_obj=isobj)))
         for hid, ops in hist:
+            if isobj and reg[ek]["obj"]["clone"] is None:
+                # the class offers no get_params(): a "clone" cannot be built, re-fit the object instead (FitObj is
+                # enabled wherever CloneFit is and has the same effect in the model)
+                ops = [dict(op, op="FitObj") if op["op"] == "CloneFit" else op for op in ops]
             tr = "e%02d/%s" % (index[ek], hid)     # short ids: TLC wraps long PrintT tuples over several lines
             cases.append({"id": "C16/" + tr, "tr": tr, "entry": ek, "fn": reg[ek]["fn"], "opt": reg[ek]["opt"], "ops": ops,
-                          "seeds": real_seeds(rng), "genseed": GENSEED, "start": rng.randrange(0, 2**32),
+                          "seeds": real_seeds(rng), "genseed": GENSEED, "objseed": OBJSEED, "start": rng.randrange(0, 2**32),
                           "flavour": rng.randrange(0, 4)})
     return cases
 
 
 INT_FIELDS = ("s", "res", "glob")
-STR_FIELDS = ("id", "tr", "ev", "entry", "e", "g", "out")
+STR_FIELDS = ("id", "tr", "ev", "entry", "e", "g", "o", "out")
 
 
 def well_typed(e):
@@ -176,30 +186,44 @@ def run(chk, opts):
     thorough = chk.tier == "thorough"
     # 1. design: exhaustive model checking (runs in the background while the histories are replayed)
     from concurrent.futures import ThreadPoolExecutor
-    pool = ThreadPoolExecutor(max_workers=5)
+    pool = ThreadPoolExecutor(max_workers=8)
     cfg = "RngStreamsMC_thorough.cfg" if thorough else "RngStreamsMC_quick.cfg"
     f_design = pool.submit(tlc.run, "RngStreamsMC", cfg, workers=NCPU if thorough else 8, coverage=not thorough, timeout=3000)
     f_design2 = pool.submit(tlc.run, "RngStreamsMC", "RngStreamsMC_thorough_all.cfg", workers=NCPU, timeout=3000) if thorough else None
     f_wit = {v: pool.submit(tlc.run, "RngStreamsMC", "RngStreamsMC_%s.cfg" % v, workers=2, timeout=900, extra=["-continue"])
-             for v in ("asfound", "leak", "witness")}
+             for v in ("asfound", "leak", "witness", "objstream")}
+    objcfg = "RngStreamsMC_thorough_obj.cfg" if thorough else "RngStreamsMC_quick_obj.cfg"
+    f_designobj = pool.submit(tlc.run, "RngStreamsMC", objcfg, workers=NCPU if thorough else 4, coverage=True, timeout=3000)
     # 2. spec -> code: transition cover of the labelled state graph + random histories
     from .c17 import parse_dot, edge_cover
-    dot = os.path.join(chk.work, "rng_graph.dot")
-    g = tlc.run("RngStreamsMC", "RngStreamsGraph_thorough.cfg" if thorough else "RngStreamsGraph.cfg", workers=1, dump=dot, timeout=1200)
-    init, edges = parse_dot(dot)
-    os.remove(dot)
-    nedges = sum(len(v) for v in edges.values())
-    paths = edge_cover(init, edges, random.Random(chk.seed))
-    labels = {lab for v in edges.values() for lab, _ in v}
-    # every walk is bracketed by the same integer-seeded call: whatever the walk did to the streams in
-    # between, the two results must agree (the walk itself is TLC's; the bracket is a self-loop of the graph)
     probe = {"op": "CallInt", "e": "rand", "s": 1}
-    walks = [[probe] + [label_to_op(l) for l in p] + [probe] for p in paths]
-    chk.notes["graph"] = {"states": len(edges), "edges": nedges, "edge_labels": len(labels), "covering_walks": len(walks),
-                          "walk_ops": sum(len(w) for w in walks)}
+    fit, clone = {"op": "FitObj", "e": "rand", "o": "o1"}, {"op": "CloneFit", "e": "rand", "o": "o1"}
+
+    def cover(cfgname, tag, pre, post):
+        dot = os.path.join(chk.work, "rng_graph_%s.dot" % tag)
+        g = tlc.run("RngStreamsMC", cfgname, workers=1, dump=dot, timeout=1200)
+        init, edges = parse_dot(dot)
+        os.remove(dot)
+        paths = edge_cover(init, edges, random.Random(chk.seed))
+        # every walk is bracketed by calls with the same integer seed: whatever the walk did to the streams in
+        # between, the results must agree (the walk itself is TLC's; the bracket consists of self-loops of the graph)
+        ws = [pre + [label_to_op(l) for l in p] + post for p in paths]
+        note = {"states": len(edges), "edges": sum(len(v) for v in edges.values()),
+                "edge_labels": len({lab for v in edges.values() for lab, _ in v}), "covering_walks": len(ws),
+                "walk_ops": sum(len(w) for w in ws)}
+        return g, ws, note
+    sfx = "_thorough.cfg" if thorough else ".cfg"
+    # class-type entries (one estimator object per trace, constructed with the integer seed 1): graph with FitObj / CloneFit;
+    # every walk also re-fits the object at its start and end and fits a get_params() clone
+    f_objgraph = pool.submit(cover, "RngStreamsGraphObj" + sfx, "obj", [probe, fit], [fit, clone, probe])
+    g, walks, gnote = cover("RngStreamsGraph" + sfx, "fn", [probe], [probe])
+    g2, obj_walks, gnote2 = f_objgraph.result()
+    nedges, nstates = gnote["edges"], gnote["states"]
+    chk.notes["graph"] = gnote
+    chk.notes["graph_objects"] = gnote2
     only = set(opts["entry"].split(";")) if "entry" in opts else None
     phases["graph_s"] = round(time.time() - t0, 1)
-    cases = build_cases(chk, walks, thorough, only)
+    cases = build_cases(chk, walks, thorough, only, obj_walks)
     chk.add_cases(cases)
     results = execute_cases(execute, cases, repo=chk.repo, chunksize=2)
     if "corrupt" in opts:          # self-test of the binding: falsify ONE recorded observation, the trace spec must reject it
@@ -212,8 +236,27 @@ def run(chk, opts):
         chk.machinery.append(str(ex)[:300] + " ... " + str(ex)[-2500:])
         return
     chk.checker_cmds.append("tlc -config %s RngStreamsMC" % cfg)
-    chk.states += r.distinct + g.distinct
-    chk.transitions += r.generated + g.generated
+    chk.states += r.distinct + g.distinct + g2.distinct
+    chk.transitions += r.generated + g.generated + g2.generated
+    ro = f_designobj.result()        # the "object holding a seed" refinement: FitObj / CloneFit
+    chk.checker_cmds.append("tlc -config %s RngStreamsMC" % objcfg)
+    chk.states += ro.distinct
+    chk.transitions += ro.generated
+    chk.notes["design_run_objects"] = ro.summary()
+    for a_, (d_, t_) in ro.coverage.items():
+        if a_ in ("FitObj", "CloneFit"):
+            chk.actions["RngStreamsMC." + a_] = (d_, t_)
+    if not ro.ok:
+        chk.machinery.append("design spec RngStreamsMC/%s does not satisfy its own properties: %s" % (objcfg, ro.violated or ro.summary()))
+    for a_ in ("FitObj", "CloneFit"):
+        if ro.coverage.get(a_, (0, 0))[1] == 0:
+            chk.machinery.append("vacuous: action %s of RngStreamsMC never taken" % a_)
+    w = f_wit["objstream"].result()
+    chk.states += w.distinct
+    chk.transitions += w.generated
+    chk.notes["witness_objstream_violates"] = sorted(set(w.violated))
+    if not {"SameSeedSameResult", "ObjectHoldsSeed"} <= set(w.violated):
+        chk.machinery.append("non-vacuity: variant obj_holds_stream violates only %s" % sorted(set(w.violated)))
     chk.notes["design_run"] = r.summary()
     for a_, (d_, t_) in r.coverage.items():
         chk.actions["RngStreamsMC." + a_] = (d_, t_)
@@ -242,7 +285,7 @@ def run(chk, opts):
     w = f_wit["witness"].result()
     chk.states += w.distinct
     chk.transitions += w.generated
-    if not {"NoWitnessInt", "NoWitnessTwins"} <= set(w.violated):
+    if not {"NoWitnessInt", "NoWitnessTwins", "NoWitnessObj"} <= set(w.violated):
         chk.machinery.append("non-vacuity: witness histories not found: %s" % sorted(set(w.violated)))
     chk.notes["witness_histories_found"] = sorted(set(w.violated))
     pool.shutdown()
@@ -253,12 +296,13 @@ def run(chk, opts):
     nent = len({c["entry"] for c in cases})
     chk.rule = ("every edge of the labelled state graph of RngStreams (%d states, %d transitions, <=%d ops; %d covering walks) plus "
                 "%d random histories per entry point (seed %d), each replayed on each of %d seed-accepting entry point variants "
-                "(%d public functions/classes) with per-trace random real seeds; a case = one trace; distinct = distinct (entry, op, "
-                "seeding) steps observed" % (len(edges), nedges, 4 if thorough else 3, len(walks), 120 if thorough else 6, chk.seed,
-                                             nent, len({c["fn"] for c in cases})))
+                "(%d public functions/classes) with per-trace random real seeds; class-type entries (%d variants) additionally keep ONE estimator object per trace, constructed with the integer seed, that is re-fitted (FitObj) and cloned from get_params() (CloneFit) along the walks of the graph with those actions (%d transitions); a case = one trace; distinct = distinct (entry, op, "
+                "seeding) steps observed" % (nstates, nedges, 4 if thorough else 3, len(walks), 120 if thorough else 6, chk.seed,
+                                             nent, len({c["fn"] for c in cases}),
+                                             len({c["entry"] for c in cases if any(o["op"] in ("FitObj", "CloneFit") for o in c["ops"])}), gnote2["edges"]))
     for e in events:
         if "ev" in e and e["ev"] != "Reset":
-            chk.distinct.add((e["entry"], e["ev"], e["e"], e["s"], e["g"]))
+            chk.distinct.add((e["entry"], e["ev"], e["e"], e["s"], e["g"], e["o"]))
     chk.notes["entries"] = sorted({c["entry"] for c in cases})
     # vacuity guard (not a verdict): an entry whose calls mostly raise exercises nothing
     ncall, nraise = {}, {}
